@@ -62,6 +62,7 @@ signal.signal(signal.SIGINT,  signal.default_int_handler)
 
 SID = 'rp.session.verif'
 PID = 'pilot.0000'
+PID2 = 'pilot.0001'      # a second pilot of the task manager (its tasks share the one in-memory agent)
 
 ROUTE = {rps.TMGR_STAGING_INPUT_PENDING   : 'tin',
          rps.AGENT_STAGING_INPUT_PENDING  : 'ain',
@@ -84,10 +85,11 @@ class WorkRaised(Exception):
     pass
 
 
-def T(uid, fault='none', raises='none', cores=1):
+def T(uid, fault='none', raises='none', cores=1, soe=False, out=False):
     '''fault: a task-level failure; raises: the work() of that component raises
-       for the bulk containing this task'''
-    return {'uid': uid, 'fault': fault, 'raises': raises, 'cores': cores}
+       for the bulk containing this task; soe: stage_on_error; out: the task
+       writes out.dat and asks for it to be transferred to the client'''
+    return {'uid': uid, 'fault': fault, 'raises': raises, 'cores': cores, 'soe': soe, 'out': out}
 
 
 class Scenario(object):
@@ -267,8 +269,11 @@ class PipelineRig(object):
         ts.register_output = lambda *a, **k: None
         ts.initialize()
         ts._outputs = outs
+        self.pilot2 = copy.deepcopy(self.pilot)
+        self.pilot2['uid'] = PID2
         ts.control_cb(rpc.CONTROL_PUBSUB, {'cmd': 'add_pilots',
-                                           'arg': {'pilots': [copy.deepcopy(self.pilot)],
+                                           'arg': {'pilots': [copy.deepcopy(self.pilot),
+                                                              copy.deepcopy(self.pilot2)],
                                                    'tmgr': 'tmgr.0000'}})
         self.tsched = ts
 
@@ -281,8 +286,8 @@ class PipelineRig(object):
             c._pwd = self.cwd
             return c
         self.tin = stager(TmgrIn, 'tmgr_staging_input.0000', 'tin', rps.TMGR_STAGING_INPUT_PENDING)
-        self.tin._pilots, self.tin._pilots_lock = {PID: self.pilot}, mt.RLock()
-        self.tin._connected = [PID]
+        self.tin._pilots, self.tin._pilots_lock = {PID: self.pilot, PID2: self.pilot2}, mt.RLock()
+        self.tin._connected = [PID, PID2]
         self.tin._session_sbox = str(s._get_session_sandbox(self.pilot))
         self.tin._tar_idx, self.tin._mkdir_threshold = 0, 1024 * 1024
         self.ain  = stager(AgentIn,  'agent_staging_input.0000',  'ain',  rps.AGENT_STAGING_INPUT_PENDING)
@@ -381,6 +386,12 @@ class PipelineRig(object):
         else:
             d['input_staging'].append({'source': 'client:///in.dat', 'target': 'task:///in.dat',
                                        'action': rpc.TRANSFER})
+        if t.get('out'):
+            d['output_staging'].append({'source': 'task:///out.dat',
+                                        'target': 'client:///out.%s.dat' % t['uid'],
+                                        'action': rpc.TRANSFER})
+        if t.get('soe'):
+            d['stage_on_error'] = True
         return d
 
     # ----------------------------------------------------------------------
@@ -523,6 +534,12 @@ class PipelineRig(object):
             p = self.procs[arg]
             code = 3 if self.spec[arg]['fault'] == 'exit' else 0
             p.code = -15 if p.killed else code
+            if self.spec[arg].get('out'):
+                sbox = self.ex._tasks[arg]['task_sandbox_path'] if arg in self.ex._tasks else None
+                if sbox:
+                    os.makedirs(sbox, exist_ok=True)
+                    with open(os.path.join(sbox, 'out.dat'), 'w') as fh:
+                        fh.write('output of %s' % arg)
             if code:
                 self.faults_hit.append(['fault', 'exit', [arg]])
             cur['uids'] = [arg]
@@ -576,7 +593,8 @@ class PipelineRig(object):
 
     def trace(self):
         return {'uids': sorted(self.spec), 'spec': {u: {'fault': t['fault'], 'raises': t['raises'],
-                                                       'cores': t['cores']} for u, t in self.spec.items()},
+                                                       'cores': t['cores'], 'soe': bool(t.get('soe')),
+                                                       'out': bool(t.get('out'))} for u, t in self.spec.items()},
                 'bulks': self.scn.bulks, 'named': sorted(set(u for c in self.scn.cancels for u in c)),
                 'ncores': self.scn.ncores, 'faults_hit': self.faults_hit,
                 'cb_log': self.cb_log, 'events': self.events}
